@@ -2,7 +2,7 @@
 from ..agree import rule_A3, rule_Q1_Q2
 from ..pathrules import rule_T8ii
 from ..persist import rule_P4_bound, rule_P1_P2, rule_P9, persist_classes, _ctor_obj
-from ..shape import rule_N2
+from ..shape import rule_N2, rule_N3
 from ..lockstep import ExpandingTracker
 from .C13 import rule_T9, G_UNION
 from ..rowfacts import rule_M1
@@ -22,6 +22,8 @@ def run(ctx):
     rule_T8ii(ctx, 'NautilusBound.sample')
     rule_Q1_Q2(ctx)
     rule_N2(ctx)
+    rule_N3(ctx, classes={'Union', 'NautilusBound', 'Ellipsoid', 'UnitCubeEllipsoidMixture',
+                          'NeuralBound', 'UnitCube'})
     rule_M1(ctx)      # what sample() hands out is inside the region contains() accepts
     rule_V2(ctx)      # the closed-form volumes, as exact algebra
     rule_K2(ctx)      # a cached volume is invalidated by every counter update (serial and pool)
